@@ -293,6 +293,13 @@ def jobs_for(prop: str, repo_root: str, typed: bool) -> List[tuple]:
             jobs.append((prop, N, "whole package re-emitted by ast.unparse (formatting-only change)", reformatted, "", repo_root))
         except (SyntaxError, AnalysisError):
             pass
+    # behaviour-preserving refactorings written by sub-agents (suite and demos unchanged): no check may alarm on them
+    neutral = os.path.join(VERIF, "neutral")
+    if os.path.isdir(neutral):
+        for entry in sorted(os.listdir(neutral)):
+            if entry.endswith(".diff"):
+                jobs.append((prop, N, f"refactoring {entry}", _overlay_from_patch(repo_root, os.path.join(neutral, entry)),
+                             "", repo_root))
     seeds = os.path.join(VERIF, "seeded")
     if os.path.isdir(seeds):
         for entry in sorted(os.listdir(seeds)):
